@@ -33,6 +33,7 @@ Tags(e) ==
          ELSE IF Obs(e.res) = tbl[e.src] THEN <<>>
          ELSE IF e.src \in mutated THEN <<"barcode-changed-after-input-mutation">> ELSE <<"barcode-changed">>
     [] e.op = "mutate" -> IF e.res.kind = "done" THEN <<>> ELSE <<"harness-mutate">>
+    [] e.op = "poke" -> <<>>          \* a call outside the domain (incomplete colour scheme), made and dropped: only the calls after it are judged
     [] OTHER -> <<"unknown-event">>
 
 Step ==
